@@ -238,7 +238,8 @@ func specHybrid(b []byte, width, count int) (out []int32, ok bool) {
 // ---------- decoded column ----------
 
 type specColumn struct {
-	rep, def []int32
+	v1Pages, v2Pages, dictPages int
+	rep, def                    []int32
 	ints     []int64  // INT32 / INT64 values
 	strs     [][]byte // BYTE_ARRAY values
 }
@@ -358,7 +359,9 @@ func specReadChunk(file []byte, meta *specVal, maxRep, maxDef int) (col *specCol
 			vAssert(enc == 0 || enc == 2, "dictionary values are PLAIN")
 			vAssert(dict.plain(physical, body, dn), "dictionary page holds exactly num_values PLAIN values")
 			pg.isDict = true
+			col.dictPages++
 		case 0: // DATA_PAGE
+			col.v1Pages++
 			dh := h.field(5)
 			vAssert(dh != nil, "data page v1 has its header")
 			if dh == nil {
@@ -410,6 +413,7 @@ func specReadChunk(file []byte, meta *specVal, maxRep, maxDef int) (col *specCol
 			}
 			seen += int64(nv)
 		case 3: // DATA_PAGE_V2
+			col.v2Pages++
 			dh := h.field(8)
 			vAssert(dh != nil, "data page v2 has its header")
 			if dh == nil {
@@ -735,6 +739,9 @@ func specDecodeFile(file []byte, wantRows int64) ([]*specColumn, bool) {
 				specCheckHistogram(ss.items(2), col.rep, f.leaves[ci].maxRep, "repetition")
 			}
 			specCheckIndexes(file, chunk, pages, col, f.leaves[ci], rgRows)
+			cols[ci].v1Pages += col.v1Pages
+			cols[ci].v2Pages += col.v2Pages
+			cols[ci].dictPages += col.dictPages
 			cols[ci].rep = append(cols[ci].rep, col.rep...)
 			cols[ci].def = append(cols[ci].def, col.def...)
 			cols[ci].ints = append(cols[ci].ints, col.ints...)
